@@ -98,6 +98,31 @@ type spyHost struct {
 	log    []spyEv
 	ncalls int
 	plan   spyPlan
+	// T09: one-shot park point inside handleCallReq, after canHandleNewCall's increment:
+	// 1 = in RelayCall.Destination(), 2 = in the first RelayCall.Failed() (before it is logged)
+	parkAt int
+	ctl    *rsCtl
+}
+
+// maybePark parks the calling relay goroutine (the reader inside handleCallReq) at the armed
+// callback; the schedule controller sees it as a park point named spy.park.
+func (h *spyHost) maybePark(kind, idx int) {
+	h.mu.Lock()
+	hit := h.parkAt == kind && h.ctl != nil
+	if hit {
+		h.parkAt = 0
+	}
+	ctl := h.ctl
+	h.mu.Unlock()
+	if hit {
+		ctl.hook("spy.park", uint32(idx))
+	}
+}
+
+func (h *spyHost) armPark(kind int) {
+	h.mu.Lock()
+	h.parkAt = kind
+	h.mu.Unlock()
 }
 
 func (h *spyHost) SetChannel(ch *tchannel.Channel) { h.ch = ch }
@@ -147,6 +172,7 @@ type spyCall struct {
 }
 
 func (c *spyCall) Destination() (*tchannel.Peer, bool) {
+	c.h.maybePark(1, c.idx)
 	if c.dest == "" {
 		return nil, false
 	}
@@ -156,7 +182,10 @@ func (c *spyCall) SentBytes(uint16)             { c.h.add(c.idx, 1, "") }
 func (c *spyCall) ReceivedBytes(uint16)         { c.h.add(c.idx, 2, "") }
 func (c *spyCall) CallResponse(relay.RespFrame) { c.h.add(c.idx, 3, "") }
 func (c *spyCall) Succeeded()                   { c.h.add(c.idx, 4, "") }
-func (c *spyCall) Failed(reason string)         { c.h.add(c.idx, 5, reason) }
+func (c *spyCall) Failed(reason string) {
+	c.h.maybePark(2, c.idx)
+	c.h.add(c.idx, 5, reason)
+}
 func (c *spyCall) End()                         { c.h.add(c.idx, 6, "") }
 
 // reason strings -> the model's reason codes (Model/RelayItems.v)
@@ -215,7 +244,7 @@ type rsCtl struct {
 }
 
 var rsParkPoints = map[string]bool{"relay.nonCallReq.afterGet": true, "relay.Receive.afterGet": true,
-	"relayTimer.OnTimer": true, "relay.timeout.afterEntomb": true}
+	"relayTimer.OnTimer": true, "relay.timeout.afterEntomb": true, "spy.park": true}
 
 func (c *rsCtl) hook(name string, id uint32) {
 	var tok chan struct{}
@@ -418,6 +447,11 @@ type rsWorld struct {
 	trace    []string
 	lastTomb time.Time
 	closing  [2]bool
+	// T09
+	usedU       bool    // a macro MArriveU was emitted: id re-use or an extra park point (outside the classified schedules)
+	wantClosed  [2]bool // a graceful close of the connection was started: it must reach the closed state
+	chanClosing bool    // Channel.Close() was called on the relay: the channel must reach ChannelClosed
+	t09         string  // label of the T09 scenario for the histogram
 }
 
 func (w *rsWorld) mask() int64 {
@@ -437,6 +471,7 @@ func newRsWorld(rng *rand.Rand, cancelOn bool, maxTombs int) (*rsWorld, error) {
 	w.gates[0], w.gates[1] = newRsGate(), newRsGate()
 	w.host = &spyHost{}
 	w.ctl = &rsCtl{}
+	w.host.ctl = w.ctl
 	opts := &tchannel.ChannelOptions{
 		RelayHost:              w.host,
 		RelayMaxTombs:          uint64(maxTombs),
@@ -610,6 +645,96 @@ func (w *rsWorld) arrive(k int, frame []byte, mt, id, flags, code int64, wf bool
 	w.nmacro++
 	w.tr("arrive k=%d mt=%#x id=%d flags=%d code=%d call=%d mask=%d", k, mt, id, flags, code, call, w.mask())
 	return w.run(fmt.Sprintf("r%d", k), call, func() { w.peers[k].conn.Write(frame) }, "conn.readFrames.handled", w.connID[k])
+}
+
+// arriveU: like arrive, for a call req whose id may be in use and/or with the spy's extra park
+// point armed (pk: 0 none, 1 Destination(), 2 Failed()); macro MArriveU of the model.
+func (w *rsWorld) arriveU(k int, frame []byte, mt, id, flags, code int64, wf bool, env [4]int64, call int, pk int) bool {
+	w.usedU = true
+	w.markSuspects(call, "")
+	w.host.armPark(pk)
+	w.macros = append(w.macros, 7, int64(k), mt, id, flags, code, b2i(wf), env[0], env[1], env[2], env[3], w.mask(), int64(pk))
+	w.nmacro++
+	w.tr("arriveU k=%d mt=%#x id=%d call=%d mask=%d park=%d", k, mt, id, call, w.mask(), pk)
+	ok := w.run(fmt.Sprintf("r%d", k), call, func() { w.peers[k].conn.Write(frame) }, "conn.readFrames.handled", w.connID[k])
+	w.host.armPark(0)
+	return ok
+}
+
+// startCallU: a single-frame call req on connection 0 through arriveU.  dup != nil: the call req
+// carries the id of that earlier call (a duplicate id).  edest is the model's e_dest as it will
+// be WHEN Destination()/getConnectionRelay run (after the park, if any).
+func (w *rsWorld) startCallU(plan spyPlan, pk int, edest int64, dup *rsCallSt) bool {
+	c := &rsCallSt{origID: uint32(1000 + len(w.calls)), started: true}
+	if dup != nil {
+		c.origID = dup.origID
+	}
+	if plan.start == 0 {
+		c.idx = w.host.ncalls + 1
+	}
+	w.calls = append(w.calls, c)
+	w.host.mu.Lock()
+	w.host.plan = plan
+	w.host.mu.Unlock()
+	before := w.snap(1).NextID
+	ok := w.arriveU(0, rsCallReqFrame(c.origID, false, false, 10), 0x03, int64(c.origID), 0, 0, true,
+		[4]int64{int64(plan.start), int64(plan.code), edest, 0}, c.idx, pk)
+	if w.snap(1).NextID > before {
+		c.admitted, c.did = true, before
+		c.mdid = int64(before-w.didBase) + 1
+		w.nAdmit++
+		c.tmDest, c.tmOrig = int64(2*w.nAdmit-1), int64(2*w.nAdmit)
+	}
+	return ok
+}
+
+// closeChan starts a graceful close of the whole relay channel (Channel.Close): both
+// connections enter connectionStartClose; an idle one completes its close at once.
+func (w *rsWorld) closeChan() {
+	w.tr("channel close")
+	act := [2]bool{w.snap(0).State == 1, w.snap(1).State == 1}
+	w.rly.Close()
+	w.chanClosing = true
+	for k := 0; k < 2; k++ {
+		if act[k] {
+			w.macros = append(w.macros, 4, int64(k))
+			w.nmacro++
+			w.closing[k] = true
+			w.wantClosed[k] = true
+		}
+	}
+	w.noteDrained()
+}
+
+// oracleClose (C09: "so both connections can complete a graceful close"): every connection on
+// which a graceful close was started has, once every call has ended and its pending count is
+// zero, reached the closed state -- and the channel, if it was closed, ChannelClosed.
+func (w *rsWorld) oracleClose() string {
+	deadline := time.Now().Add(2 * time.Second)
+	for {
+		bad := ""
+		for k := 0; k < 2; k++ {
+			if !w.wantClosed[k] {
+				continue
+			}
+			if c := w.snap(k); c.State != 4 && c.Pending == 0 {
+				bad = fmt.Sprintf("connection %d does not complete its graceful close: state %d with pending=0 and no live relay item (%d+%d live items) -- the pending count reached zero while the connection was closing and nobody re-ran the close check",
+					k, c.State, c.OutItems-c.OutTombs, c.InItems-c.InTombs)
+			} else if c.State != 4 {
+				bad = fmt.Sprintf("connection %d does not complete its graceful close: state %d pending=%d after every call ended", k, c.State, c.Pending)
+			}
+		}
+		if bad == "" && w.chanClosing && w.wantClosed[0] && w.wantClosed[1] && w.rly.State() != tchannel.ChannelClosed {
+			bad = fmt.Sprintf("relay channel does not complete its graceful close: channel state %v, connection states %d/%d", w.rly.State(), w.snap(0).State, w.snap(1).State)
+		}
+		if bad == "" {
+			return ""
+		}
+		if time.Now().After(deadline) {
+			return bad
+		}
+		time.Sleep(2 * time.Millisecond)
+	}
 }
 
 func (w *rsWorld) cont(th string) bool {
@@ -1176,7 +1301,7 @@ func engineRelaySched(rng *rand.Rand, n int, tier string, o *Out, wire bool) {
 			o.Oracle("relaysched", fmt.Sprintf("rs%d", ci), false, "", "harness: "+err.Error())
 			continue
 		}
-		scenario := ci % 8
+		scenario := ci % 11
 		ok := w.scenario(scenario)
 		steps := 0
 		for ok && w.infeas == "" && steps < 40 {
@@ -1204,6 +1329,12 @@ func engineRelaySched(rng *rand.Rand, n int, tier string, o *Out, wire bool) {
 			verdict = w.oracleC10(frames[0])
 		} else {
 			verdict = w.oracleC09(spy, conns, finished)
+			if verdict == "" && finished {
+				if verdict = w.oracleClose(); verdict != "" {
+					// the observation is taken again: the states the verdict speaks about
+					obs, spy, frames, conns = w.observe(false)
+				}
+			}
 		}
 		in := append([]int64{int64(maxTombs), b2i(cancelOn), 2, int64(w.nmacro)}, w.macros...)
 		nontrivial := len(spy) > 2
@@ -1213,7 +1344,12 @@ func engineRelaySched(rng *rand.Rand, n int, tier string, o *Out, wire bool) {
 		// C10_relay_grammar_calm whenever the implementation shows a callback after End (sv) or a
 		// caller-side frame sequence that is not a prefix of an accepted word (gv)
 		sv, gv := rsCalmBits(spy, frames[0])
-		o.Case("relaycalm", id+"-calm", append(append([]int64(nil), in...), sv, gv), []int64{1}, nontrivial, "")
+		if !w.usedU {
+			o.Case("relaycalm", id+"-calm", append(append([]int64(nil), in...), sv, gv), []int64{1}, nontrivial, "")
+		}
+		if w.t09 != "" {
+			o.Hist("t09:" + w.t09)
+		}
 		if sv != 0 {
 			o.Hist("impl-callback-after-End")
 		}
@@ -1295,6 +1431,7 @@ func (w *rsWorld) closeConn(k int) {
 	w.macros = append(w.macros, 4, int64(k))
 	w.nmacro++
 	w.closing[k] = true
+	w.wantClosed[k] = true
 	w.noteDrained()
 }
 
@@ -1411,6 +1548,113 @@ func (w *rsWorld) scenario(s int) bool {
 	case 6: // two or three concurrent calls
 		for i := 0; i < pick(w.rng, 2, 3); i++ {
 			if !w.startCall(okPlan, w.rng.Intn(2) == 0, pick(w.rng, 0, 1), false, 10, 0, [][]int{{2}, {1, 4}, {5}}[w.rng.Intn(3)]) {
+				return false
+			}
+			for w.threads["r0"] != nil {
+				if !w.cont("r0") {
+					return false
+				}
+			}
+		}
+		return true
+	case 8: // T09 (b): a graceful close races with a call that is REJECTED after it was counted as pending
+		closeIt := func() {
+			if w.rng.Intn(2) == 0 {
+				w.closeChan()
+			} else {
+				w.closeConn(0)
+			}
+		}
+		switch w.rng.Intn(4) {
+		case 0: // RelayHost without a destination; the reader parks inside Destination()
+			w.t09 = "close-vs-reject:no-destination"
+			if !w.startCallU(spyPlan{dest: ""}, 1, -1, nil) {
+				return false
+			}
+			closeIt()
+			return w.cont("r0")
+		case 1: // connecting to the destination fails
+			w.t09 = "close-vs-reject:connect-failure"
+			if !w.startCallU(spyPlan{dest: "127.0.0.1:1"}, 1, -2, nil) {
+				return false
+			}
+			closeIt()
+			return w.cont("r0")
+		case 2: // the destination connection goes away while the reader is parked: no usable connection
+			w.t09 = "close-vs-reject:destination-closed"
+			if !w.startCallU(okPlan, 1, -2, nil) {
+				return false
+			}
+			w.closeChan()
+			return w.cont("r0")
+		default: // duplicate id: the reader parks inside Failed(duplicate); the live call ends by its timeout
+			w.t09 = "close-vs-reject:duplicate-id"
+			if !w.startCall(okPlan, false, 0, false, 10, 0, nil) {
+				return false
+			}
+			for w.threads["r0"] != nil {
+				if !w.cont("r0") {
+					return false
+				}
+			}
+			if !w.calls[0].admitted {
+				return true
+			}
+			if !w.startCallU(okPlan, 2, 1, w.calls[0]) {
+				return false
+			}
+			closeIt()
+			return w.cont("r0")
+		}
+	case 9: // T09 (b'): a graceful close while a call is in flight; the walk then completes the call (finish / timeout / fail paths)
+		if !w.startCall(okPlan, w.rng.Intn(2) == 0, pick(w.rng, 0, 1), false, 10, 0, [][]int{{2}, {1, 4}, {5}, {}}[w.rng.Intn(4)]) {
+			return false
+		}
+		for w.threads["r0"] != nil {
+			if !w.cont("r0") {
+				return false
+			}
+		}
+		switch w.rng.Intn(3) {
+		case 0:
+			w.t09 = "close-in-flight:caller-conn"
+			w.closeConn(0)
+		case 1:
+			w.t09 = "close-in-flight:destination-conn"
+			w.closeConn(1)
+		default:
+			w.t09 = "close-in-flight:channel"
+			w.closeChan()
+		}
+		return true
+	case 10: // T09 (a): a duplicate call req against the call IN FLIGHT (or its tombstone); the backend stays silent
+		if !w.startCall(okPlan, false, 0, false, 10, 0, nil) {
+			return false
+		}
+		for w.threads["r0"] != nil {
+			if !w.cont("r0") {
+				return false
+			}
+		}
+		c := w.calls[0]
+		if !c.admitted {
+			return true
+		}
+		w.t09 = "duplicate-vs-live"
+		if w.rng.Intn(4) == 0 { // the originating item has timed out: duplicate against its tombstone
+			w.t09 = "duplicate-vs-tombstone"
+			if !w.fire(c, true) {
+				return false
+			}
+			th := fmt.Sprintf("t%d", c.tmOrig)
+			for w.threads[th] != nil {
+				if !w.cont(th) {
+					return false
+				}
+			}
+		}
+		for i := 0; i < pick(w.rng, 1, 1, 2); i++ {
+			if !w.startCallU(okPlan, 0, 1, c) {
 				return false
 			}
 			for w.threads["r0"] != nil {
